@@ -115,6 +115,11 @@ def prepare(prop: str, extra_modules=()) -> LeanStatus:
             data, changed, errs = translate.run(pin=False)
         except Exception as e:  # the source no longer has the shape the translator expects
             data, changed, errs = None, [], {"<translator>": f"{type(e).__name__}: {e}"}
+        try:
+            import mkmanifest
+            mkmanifest.regen_lean()
+        except Exception:
+            pass
         props_file = os.path.join(MODEL_DIR, "Props", f"{prop}.lean")
         thms = [t for t in theorems_in(props_file) if ".Props." in t[0]]
         # audit file
